@@ -24,6 +24,8 @@ Definition materialize_generic (name : positive) (t : tree) : tree :=
   if mat_simplify t then t else Mat name t.
 
 Definition transfer_generic (conform : tree -> result tree) (dest : engine) (t : tree) : result tree :=
+  (* a relation already in the destination engine is returned as it is (before any there-and-back simplification) *)
+  if engine_eqb (engine_of t) dest then Ok t else
   let t1 := default t (xfer_simplify dest t) in
   if engine_eqb (engine_of t1) dest then Ok t1
   else do c <- conform t1; Ok (Xfer dest c).
